@@ -105,7 +105,7 @@ func pick(r *rand.Rand, ss []string) string { return ss[r.Intn(len(ss))] }
 // or a two-digit limit.
 func captureLit(r *rand.Rand) string {
 	if r.Intn(12) == 0 {
-		return pick(r, []string{"08", "09", "007", "010", "0", "00", "12", "02"})
+		return pick(r, []string{"08", "09", "007", "010", "0", "00", "12", "02", "-1", "-2", "+2", "-0", "+1"})
 	}
 	return string(rune('1' + r.Intn(3)))
 }
